@@ -1232,7 +1232,7 @@ func (m *Msg) RequestMDNTo(rcpts ...string) error {
 // References:
 //   - https://datatracker.ietf.org/doc/html/rfc8098
 func (m *Msg) RequestMDNToFormat(name, addr string) error {
-	return m.RequestMDNTo(fmt.Sprintf(`%s <%s>`, name, addr))
+	return m.RequestMDNTo(formatNameAddr(name, addr))
 }
 
 // RequestMDNAddTo adds an additional recipient to the "Disposition-Notification-To" header for the Msg.
